@@ -100,3 +100,23 @@ class CountLetter(Specification):
 
 CUSTOM = {c.__name__: c for c in (ForbidWord, ForbidWordBadLocal, ForbidWordNoneLocal, NoLocations,
                                   LazyHeuristic, GivingUpHeuristic, CountLetter)}
+
+
+class CountLetterCapped(CountLetter):
+    """like CountLetter but declares its best possible score (the length of its location): a user
+    objective whose best score is not 0 (exercises the early exits of the optimisers)"""
+
+    def initialized_on_problem(self, problem, role=None):
+        sp = self._copy_with_full_span_if_no_location(problem)
+        sp = sp.copy_with_changes()
+        sp.best_possible_score = len(sp.location)
+        return sp
+
+    def localized(self, location, problem=None):
+        ov = self.location.overlap_region(location)
+        if ov is None:
+            return None
+        return self.copy_with_changes(location=ov, best_possible_score=len(ov))
+
+
+CUSTOM["CountLetterCapped"] = CountLetterCapped
